@@ -236,7 +236,11 @@ impl AsyncFileSystem for AsyncMemoryFS {
     async fn create_file(&self, path: &str) -> VfsResult<Box<dyn Write + Send + Unpin>> {
         self.ensure_has_parent(path).await?;
         let content = Arc::new(Vec::<u8>::new());
-        self.handle.write().await.files.insert(
+        let mut handle = self.handle.write().await;
+        if let Some(existing) = handle.files.get(path) {
+            ensure_file(existing)?;
+        }
+        handle.files.insert(
             path.to_string(),
             AsyncMemoryFile {
                 file_type: VfsFileType::File,
